@@ -7,6 +7,7 @@ from hypothesis import strategies as st
 from vf import magicreg
 from vf import progdiff as pd
 from vf import refworker as rw
+from vf.gen import dropbox as gdb
 from vf.pool import HOSTS, WorkerDied
 from vf.props.c10 import xdis_frame
 from vf.run import Result
@@ -96,6 +97,13 @@ def adversarial(name, p):
         elif name == "tuple-dag-as-dict-key":
             out += b"{" + b"r" + i32(depth - 1) + b"N" + b"0"
         return out
+    if name == "dropbox-encrypted":
+        # well-formed encryption around a code object whose code bytes and constants are drawn: opcodes missing from the
+        # substitution table, hostile marshal data inside the constants (it reaches the in-memory reader decrypted)
+        code = bytes([(n * 7 + j * 13 + p.get("count", 0)) % 256 for j in range(4 + n % 9)])
+        inner = [b"(" + i32(1) + b"N", b"(" + i32(p.get("count", 0)) + b"s" + i32(-5), b"(" + i32(2) + b"s" + i32(p.get("count", 0)) + b"ab",
+                 b"[" + i32(p.get("count", 0)) + b"N", b"{" + b"NN" * (n % 5), b"R" + i32(p.get("count", 0)), b"?"][n % 7]
+        return b"DROPBOX" + gdb.inner_code(code, inner)
     if name == "negative-length-in-big-container":
         # a container claiming `count` elements whose every element is a string of negative length: a reader that
         # moves its position by the length goes backwards and never reaches the end of the data
@@ -144,7 +152,7 @@ ADV_NAMES = ["tuple-count-lies", "list-count-lies", "set-count-lies", "many-tiny
              "deep-nesting", "deep-nesting-lists", "deep-nesting-dicts", "ref-out-of-range", "self-reference",
              "self-reference-in-set", "string-length-lies", "unicode-length-lies", "long-digit-count-lies", "unknown-type-codes",
              "dict-no-terminator", "code-with-garbage-fields", "stringref-out-of-range", "unhashable-in-set",
-             "null-in-odd-places", "float-text-garbage", "negative-length-in-big-container", "negative-length-string", "list-containing-itself", "dict-containing-itself", "tuple-dag",
+             "null-in-odd-places", "float-text-garbage", "negative-length-in-big-container", "negative-length-string", "dropbox-encrypted", "list-containing-itself", "dict-containing-itself", "tuple-dag",
              "tuple-dag-in-set", "tuple-dag-as-dict-key", "tuple-dag-in-code-consts", "tuple-dag-in-code-names"]
 
 
@@ -223,6 +231,9 @@ class C11:
         return st.one_of(mut, mut, adv, raw, magic)
 
     def fixed_cases(self, ctx):
+        # correctly encrypted Dropbox files around drawn code bytes / hostile constants: every inner variant, several code strings
+        for n in range(0, 28):
+            yield {"t": "adv", "name": "dropbox-encrypted", "v": "2.5", "count": [5, 0x7fffffff, 0, -3 % (2 ** 32)][n % 4], "n": n, "host": "3.12"}
         # systematic: prefixes and single-byte substitutions
         for i, s in enumerate(self.seeds):
             yield {"t": "prefix", "seed": i, "lo": 0, "hi": len(s) + 1, "host": "3.12"}
@@ -254,11 +265,17 @@ class C11:
             label = "%d edits of %s" % (len(case["edits"]), self.labels[case["seed"]])
         elif t == "adv" and case.get("name") in ADV_NAMES and case.get("v") in ADV_VERSIONS:
             payload = adversarial(case["name"], case)
-            if case["v"] == "2.5" or case["name"] == "dropbox":
+            if payload.startswith(b"DROPBOX"):
+                data = gdb.dropbox_pyc(payload[7:])
+                payload = None
+            if payload is None:
+                pass
+            elif case["v"] == "2.5" or case["name"] == "dropbox":
                 hdr = struct.pack("<H", 62135) + b"\r\n" + struct.pack("<I", 0)        # (a 2.5 header: magic + timestamp)
             else:
                 hdr = header_for(self.magics, case["v"])
-            data = hdr + payload
+            if payload is not None:
+                data = hdr + payload
             if len(data) < 60:
                 data += b"\0" * (60 - len(data))
             items = [{"hex": rw.hx(data)}]
